@@ -343,6 +343,7 @@ func blockOnListChangeWorker(
 	output = op()
 	if output.data != nil {
 		ctx.l.Tracef("list at %s got an item before waiting on the channel", keyNameStr())
+		ctx.dsc.ds.passOnWakeServed(ws, keyNames)
 		return
 	}
 
@@ -391,6 +392,7 @@ func blockOnListChangeWorker(
 		// list element probably exists and the operation will succeed
 		output = op()
 		if output.data != nil {
+			ctx.dsc.ds.passOnWakeServed(ws, keyNames)
 			return
 		}
 		// a different client obtained the list element before this client could: the wake-up
@@ -399,6 +401,7 @@ func blockOnListChangeWorker(
 		ctx.dsc.ds.reenterListBlock(ws, keyNames)
 		output = op()
 		if output.data != nil {
+			ctx.dsc.ds.passOnWakeServed(ws, keyNames)
 			return
 		}
 	}
